@@ -162,10 +162,31 @@ def check(idx: Index, rep: Report, tier: str) -> str:
         r.ok(f.fq, f"{f.loc} has_one_use() tested in every iteration before the user is folded")
     else:
         r.fail(f.fq, Finding("C16.R4", f.fq, "single-use-not-rechecked", "the single-use test of the induction variable is not repeated inside the fold loop: after the first fold the uses of the folded op move to the induction variable, and a second add/mul is folded into the bounds while other users still expect the unscaled value", f.loc))
-    if "if not is_foldable(user.operands[1], op):" in unparse(f.node) and "if not is_foldable(user.operands[0], op):" in unparse(f.node):
+    # the value folded into the bounds is tested to be loop-invariant (is_foldable) on the path that uses it
+    opn4 = f.node.args.args[1].arg
+    builds = [c for c in calls_in(f.node) if call_attr(c) in ("AddiOp", "MuliOp") and len(c.args) == 2 and re.fullmatch(rf"{opn4}\.(lb|ub|step)", unparse(c.args[0]))]
+    if not builds:
+        raise AnalysisError(f"{f.fq}: construction of the new loop bounds not found")
+    bad_inv = None
+    for c in builds:
+        x = unparse(c.args[1])
+        xs = {x, resolved_text(cfg, c.args[1], cfg.node_of(c))}
+        nf4 = norm_facts(text_facts(f.node, c))
+        ok_here = any(p_ and any(t_ == f"is_foldable({x_}, {opn4})" for x_ in xs) for t_, p_ in nf4)
+        if not ok_here and isinstance(c.args[1], ast.Name):
+            # every definition that reaches here was tested where it was made (`if not is_foldable(v, op): return; x = v`)
+            from ..dataflow import reaching_defs as _rd16
+
+            ds = [(nid_, v_) for nid_, v_ in _rd16(cfg, x, cfg.node_of(c)) if v_ is not None]
+            ok_here = bool(ds) and all(any(p_ and t_ in (f"is_foldable({unparse(v_)}, {opn4})", f"is_foldable({x}, {opn4})") for t_, p_ in norm_facts(text_facts(f.node, cfg.nodes[nid_].ast))) for nid_, v_ in ds)
+        if not ok_here:
+            bad_inv = (c, x, [t_ for t_, _ in nf4 if "is_foldable" in t_])
+    if bad_inv is None:
         r.ok(f.fq + ":invariant", f"{f.loc} the folded operand must be defined outside the loop")
+    elif bad_inv[2]:
+        raise AnalysisError(f"{f.fq}: `{unparse(bad_inv[0])[:60]}` uses `{bad_inv[1]}` while the invariance test is on {bad_inv[2][:2]}")
     else:
-        r.fail(f.fq + ":invariant", Finding("C16.R4", f.fq, "non-invariant-operand", "the other operand of the folded op is not checked to be loop-invariant", f.loc))
+        r.fail(f.fq + ":invariant", Finding("C16.R4", f.fq, "non-invariant-operand", f"`{unparse(bad_inv[0])[:70]}` folds `{bad_inv[1]}` into the loop bounds without is_foldable({bad_inv[1]}, {opn4}): a value computed inside the loop body would be used before the loop", f.loc))
 
     r = rep.rule("C16.R5", "affine lowering uses the operand indices unchanged only when the access has no map (or the map is tested to be the identity); otherwise every result expression of the map is materialised", floor=1)
     f = idx.func("xdsl/transforms/lower_affine.py", "insert_affine_map_ops")
